@@ -393,7 +393,7 @@ pub fn cmd_c10(tier: &str, out: &str) {
             .map(|_| (if case % 5 == 1 { 1 } else if case % 5 == 2 { rng.below(2) as u8 } else { 0 }, if case % 3 == 0 { (case / 3 % 3) as u8 } else { rng.below(3) as u8 }))
             .collect();
         let maxlen = files.iter().map(|f| f.len()).max().unwrap_or(0);
-        for (src, buf) in [(0u8, 0u8), (1, 1), (2, 2), (1, 0), (2, 1), (0, 2)] {
+        for (src, buf) in [(0u8, 0u8), (1, 1), (2, 2), (1, 0), (2, 1), (0, 2), (3, 0), (3, 2)] {
             if !thorough && (case + src as usize + buf as usize) % 3 != 0 {
                 continue;
             }
@@ -439,7 +439,7 @@ fn run_e2e(stream: &[u8], src: u8, buf: u8, nfix: usize, calls: &[(u8, u8)]) -> 
                 }
                 _ => {
                     let n = Rc::new(Cell::new(0));
-                    let mut r = $builder.from_reader(CountingRead2 { s: stream, i: 0, n: n.clone() });
+                    let mut r = $builder.from_reader(CountingRead2 { s: stream, i: 0, n: n.clone(), intr: if src == 3 { 7 } else { 0 }, pending_intr: false });
                     e2e_calls!(r, n.get(), calls)
                 }
             }
@@ -467,7 +467,7 @@ fn run_e2e(stream: &[u8], src: u8, buf: u8, nfix: usize, calls: &[(u8, u8)]) -> 
             }
             _ => {
                 let n = Rc::new(Cell::new(0));
-                let mut r = SmlReader::from_reader(CountingRead2 { s: stream, i: 0, n: n.clone() });
+                let mut r = SmlReader::from_reader(CountingRead2 { s: stream, i: 0, n: n.clone(), intr: if src == 3 { 7 } else { 0 }, pending_intr: false });
                 e2e_calls!(r, n.get(), calls)
             }
         },
@@ -478,9 +478,17 @@ pub struct CountingRead2<'a> {
     pub s: &'a [u8],
     pub i: usize,
     pub n: Rc<Cell<usize>>,
+    /// if > 0: report ErrorKind::Interrupted once before every byte whose index is a multiple of `intr` (and at the end)
+    pub intr: usize,
+    pub pending_intr: bool,
 }
 impl<'a> Read for CountingRead2<'a> {
     fn read(&mut self, buf: &mut [u8]) -> std::io::Result<usize> {
+        if self.intr > 0 && self.i % self.intr == 0 && !self.pending_intr {
+            self.pending_intr = true;
+            return Err(Error::new(ErrorKind::Interrupted, "interrupted"));
+        }
+        self.pending_intr = false;
         if self.i < self.s.len() && !buf.is_empty() {
             buf[0] = self.s[self.i];
             self.i += 1;
